@@ -102,6 +102,8 @@ pub struct Ctx {
     pub seed: u64,
     only: Option<(String, u64)>,
     cur_space: String,
+    /// appended to every violation key (e.g. the environment kind a sub-run is executing under)
+    pub key_suffix: String,
     cur_outer: u64,
     space_active: bool,
     pub spaces: BTreeMap<String, SpaceStat>,
@@ -273,6 +275,7 @@ impl Ctx {
             seed,
             only,
             cur_space: String::new(),
+            key_suffix: String::new(),
             cur_outer: 0,
             space_active: false,
             spaces: BTreeMap::new(),
@@ -399,6 +402,7 @@ impl Ctx {
             }
         }
         self.viol_total += 1;
+        let key = if self.key_suffix.is_empty() { key } else { format!("{}{}", key, self.key_suffix) };
         if self.viols.len() < MAX_VIOLS_PER_WORKER && !self.viols.iter().any(|v| v.key == key) {
             self.viols.push(Viol { key, space: self.cur_space.clone(), outer: self.cur_outer, what: what.to_string(), args, expected, got });
         }
